@@ -1,7 +1,433 @@
-(* C12 proofs, part 1: a mark is shown iff the result is false *)
+(* C12 proofs, part 1: a rendering carries a mark iff the result is false,
+   for every kind of result and every non-silent verbosity. *)
 From Coq Require Import List ZArith Bool Arith Lia.
 From VV Require Import Lib.Base C12.Model.
 Import ListNotations.
 
-Lemma mark_failed v : has_mark (render_table RFailed v) = negb (verdict RFailed).
+(* ---------- generic list facts ---------- *)
+
+Lemma existsb_flat_map {X Y} (f : Y -> bool) (g : X -> list Y) l :
+  existsb f (flat_map g l) = existsb (fun x => existsb f (g x)) l.
+Proof. induction l as [|a r IH]; cbn; [reflexivity|]. now rewrite existsb_app, IH. Qed.
+
+Lemma existsb_map {X Y} (f : Y -> bool) (g : X -> Y) l :
+  existsb f (map g l) = existsb (fun x => f (g x)) l.
+Proof. induction l as [|a r IH]; cbn; [reflexivity|]. now rewrite IH. Qed.
+
+Lemma existsb_ext {X} (f g : X -> bool) l :
+  (forall x, f x = g x) -> existsb f l = existsb g l.
+Proof. intros H; induction l as [|a r IH]; cbn; [reflexivity|]. now rewrite H, IH. Qed.
+
+Lemma existsb_negb_forallb {X} (f : X -> bool) l :
+  existsb (fun x => negb (f x)) l = negb (forallb f l).
+Proof. induction l as [|a r IH]; cbn; [reflexivity|]. rewrite IH. now destruct (f a). Qed.
+
+Lemma forallb_map' {X Y} (f : Y -> bool) (g : X -> Y) l :
+  forallb f (map g l) = forallb (fun x => f (g x)) l.
+Proof. induction l as [|a r IH]; cbn; [reflexivity|]. now rewrite IH. Qed.
+
+Lemma forallb_ext' {X} (f g : X -> bool) l :
+  (forall x, f x = g x) -> forallb f l = forallb g l.
+Proof. intros H. induction l as [|a r IH]; cbn; [reflexivity|]. now rewrite H, IH. Qed.
+
+Lemma existsb_false {X} (l : list X) : existsb (fun _ => false) l = false.
+Proof. induction l; cbn; auto. Qed.
+
+Lemma existsb_repeat_S {X} (f : X -> bool) x n : existsb f (repeat x (S n)) = f x.
+Proof. induction n as [|n IH]; cbn in *; [now rewrite orb_false_r|]. rewrite IH. now destruct (f x). Qed.
+
+Lemma falses_no_mark {X} (l : list X) : existsb (fun b : bool => b) (falses l) = false.
+Proof. unfold falses. rewrite existsb_map. apply existsb_false. Qed.
+
+Lemma plain_no_mark cs : existsb (existsb (fun b : bool => b)) (plain cs) = false.
+Proof.
+  unfold plain. rewrite existsb_map. erewrite existsb_ext; [apply existsb_false|].
+  intros; apply falses_no_mark.
+Qed.
+
+Lemma mark_negb_col o : existsb (fun b : bool => b) (map negb o) = negb (forallb (fun b => b) o).
+Proof. rewrite existsb_map. apply (existsb_negb_forallb (fun b : bool => b)). Qed.
+
+(* ---------- pick ---------- *)
+
+Lemma pick_cons {X} k ks (x : X) xs :
+  pick (k :: ks) (x :: xs) = if k then x :: pick ks xs else pick ks xs.
+Proof. unfold pick. cbn. now destruct k. Qed.
+
+Lemma pick_nil_l {X} (l : list X) : pick [] l = [].
 Proof. reflexivity. Qed.
+
+Lemma pick_nil_r {X} ks : pick ks (@nil X) = [].
+Proof. unfold pick. now destruct ks. Qed.
+
+Lemma pick_hit {X} (f : X -> bool) d : forall keep l i,
+  i < length keep -> i < length l ->
+  nth i keep false = true -> f (nth i l d) = true ->
+  existsb f (pick keep l) = true.
+Proof.
+  induction keep as [|k ks IH]; intros [|x xs] i Hk Hl Hn Hf; cbn in Hk, Hl; try lia.
+  rewrite pick_cons. destruct i as [|i]; cbn in Hn, Hf.
+  - subst k. cbn. now rewrite Hf.
+  - assert (E : existsb f (pick ks xs) = true) by (apply (IH xs i); auto; lia).
+    destruct k; cbn; rewrite ?E; auto using orb_true_r.
+Qed.
+
+(* ---------- pointwise conjunction of oracle columns ---------- *)
+
+Lemma andl_length a b : length (andl a b) = Nat.min (length a) (length b).
+Proof. revert b; induction a as [|x r IH]; intros [|y s]; cbn; auto. Qed.
+
+Lemma andl_nth a : forall b i, i < length a -> i < length b ->
+  nth i (andl a b) true = nth i a true && nth i b true.
+Proof.
+  induction a as [|x r IH]; intros [|y s] i Ha Hb; cbn in *; try lia.
+  destruct i; [reflexivity|]. apply IH; lia.
+Qed.
+
+Lemma fold_andl_spec n : forall ls init,
+  length init = n -> Forall (fun l => length l = n) ls ->
+  length (fold_left andl ls init) = n /\
+  forall i, i < n ->
+    nth i (fold_left andl ls init) true = nth i init true && forallb (fun l => nth i l true) ls.
+Proof.
+  induction ls as [|l ls IH]; intros init Hi Hl; cbn.
+  - split; [exact Hi|]. intros; now rewrite andb_true_r.
+  - inversion Hl as [|? ? Hl1 Hl2]; subst.
+    assert (Hlen : length (andl init l) = length init) by (rewrite andl_length; lia).
+    destruct (IH (andl init l) Hlen Hl2) as [L N]. split; [exact L|].
+    intros i Hi'. rewrite N by exact Hi'. rewrite andl_nth by lia. now rewrite andb_assoc.
+Qed.
+
+Lemma nth_repeat_true i n : nth i (repeat true n) true = true.
+Proof. revert i; induction n; intros [|i]; cbn; auto. Qed.
+
+(* some column has a [false] at a position where the conjunction is false *)
+Lemma existsb_nth_false (o : list bool) :
+  forallb (fun b => b) o = false -> exists i, i < length o /\ nth i o true = false.
+Proof.
+  induction o as [|b r IH]; cbn; [discriminate|]. destruct b; cbn.
+  - intros H. destruct (IH H) as [i [Hi Hn]]. exists (S i). split; [lia|exact Hn].
+  - intros _. exists 0. split; [lia|reflexivity].
+Qed.
+
+(* ---------- dataset tables ---------- *)
+
+Lemma ds_mask_mark d :
+  existsb (existsb (fun b : bool => b)) (ds_mask d) = negb (forallb (fun b => b) (dorac d)).
+Proof.
+  unfold ds_mask. rewrite existsb_app, plain_no_mark. cbn. now rewrite mark_negb_col, orb_false_r.
+Qed.
+
+Lemma full_table_mark r :
+  table_mark (full_table r) = negb (forallb (fun d => forallb (fun b => b) (dorac d)) (d_sets r)).
+Proof.
+  unfold table_mark, full_table; cbn. rewrite !existsb_app, !plain_no_mark. cbn.
+  rewrite existsb_flat_map. rewrite <- existsb_negb_forallb.
+  apply existsb_ext. intros d. apply ds_mask_mark.
+Qed.
+
+Lemma full_table_mark_wf r : dres_wf r -> table_mark (full_table r) = negb (d_verdict r).
+Proof. intros (_ & _ & _ & V). rewrite full_table_mark. now rewrite V. Qed.
+
+Lemma all_ok_spec r : dres_wf r ->
+  length (all_ok r) = d_nb r /\
+  forall i, i < d_nb r ->
+    nth i (all_ok r) true = forallb (fun d => nth i (dorac d) true) (d_sets r).
+Proof.
+  intros (_ & _ & S & _). unfold all_ok.
+  assert (F : Forall (fun l => length l = d_nb r) (map dorac (d_sets r))).
+  { apply Forall_map. eapply Forall_impl; [|exact S]. intros d [_ H]; exact H. }
+  destruct (fold_andl_spec (d_nb r) _ _ (repeat_length true (d_nb r)) F) as [L N].
+  split; [exact L|]. intros i Hi. rewrite N by exact Hi. rewrite nth_repeat_true. cbn.
+  now rewrite forallb_map'.
+Qed.
+
+Lemma interm_table_mark r :
+  dres_wf r -> d_verdict r = false -> table_mark (interm_table r) = true.
+Proof.
+  intros W V. pose proof W as (_ & _ & S & E). rewrite V in E. symmetry in E.
+  unfold interm_table. rewrite full_table_mark. cbn [d_sets].
+  rewrite <- existsb_negb_forallb, existsb_map. cbn [pick_dset dorac].
+  (* a dataset with a failing bin *)
+  rewrite <- negb_true_iff, <- existsb_negb_forallb in E.
+  apply existsb_exists in E. destruct E as (d & Hd & Hf). rewrite negb_true_iff in Hf.
+  destruct (existsb_nth_false _ Hf) as (i & Hi & Hn).
+  apply existsb_exists. exists d. split; [exact Hd|].
+  rewrite <- (existsb_negb_forallb (fun b : bool => b)).
+  rewrite Forall_forall in S. destruct (S d Hd) as [_ Ld].
+  destruct (all_ok_spec r W) as [La Na].
+  apply (pick_hit negb true (failing r) (dorac d) i).
+  - unfold failing. rewrite map_length. lia.
+  - exact Hi.
+  - unfold failing. rewrite (nth_indep _ false (negb true)) by (rewrite map_length; lia).
+    rewrite map_nth. rewrite Na by lia.
+    assert (X : forallb (fun d0 => nth i (dorac d0) true) (d_sets r) = false).
+    { apply not_true_is_false. intros T. rewrite forallb_forall in T. specialize (T d Hd). congruence. }
+    now rewrite X.
+  - now rewrite Hn.
+Qed.
+
+Lemma summary_mark b : has_mark (summary b) = negb b.
+Proof. cbn. now rewrite orb_false_r. Qed.
+
+Lemma one_table_mark t : has_mark [Table t] = table_mark t.
+Proof. cbn. now rewrite orb_false_r. Qed.
+
+Theorem mark_iff_false_equal r v :
+  dres_wf r -> has_mark (repr_equal r v) = negb (d_verdict r).
+Proof.
+  intros W. unfold repr_equal. destruct (d_verdict r) eqn:V.
+  - destruct (negb (verb_eqb v FullDetails)); [reflexivity|].
+    rewrite one_table_mark, full_table_mark_wf by exact W. now rewrite V.
+  - destruct (vval v <? vval Default); [reflexivity|].
+    rewrite one_table_mark, full_table_mark_wf by exact W. now rewrite V.
+Qed.
+
+Theorem mark_iff_false_approx r v :
+  dres_wf r -> v <> Silent -> has_mark (repr_approx r v) = negb (d_verdict r).
+Proof.
+  intros W NS. unfold repr_approx.
+  assert (E : verb_eqb v Silent = false) by (destruct v; try reflexivity; congruence).
+  rewrite E. cbn [andb]. destruct (verb_eqb v Summary); [apply summary_mark|].
+  now rewrite one_table_mark, full_table_mark_wf.
+Qed.
+
+Theorem mark_iff_false_student r v :
+  dres_wf r -> v <> Silent -> has_mark (repr_student r v) = negb (d_verdict r).
+Proof.
+  intros W NS.
+  assert (I : has_mark (repr_student_intermediate r) = negb (d_verdict r)).
+  { unfold repr_student_intermediate. destruct (d_verdict r) eqn:V; [reflexivity|].
+    destruct (d_scalar r).
+    - rewrite one_table_mark, full_table_mark_wf by exact W. now rewrite V.
+    - rewrite one_table_mark. now apply interm_table_mark. }
+  destruct v; cbn [repr_student]; try congruence; try exact I;
+    try apply summary_mark; now rewrite one_table_mark, full_table_mark_wf.
+Qed.
+
+(* ---------- Bonferroni, Holm-Bonferroni ---------- *)
+
+Lemma corr_table_mark b : bres_wf b -> table_mark (corr_table b) = negb (b_verdict b).
+Proof.
+  intros (_ & V & _). unfold table_mark, corr_table; cbn.
+  rewrite existsb_app, plain_no_mark. cbn. now rewrite mark_negb_col, orb_false_r, V.
+Qed.
+
+Theorem mark_iff_false_bonferroni b v :
+  bres_wf b -> v <> Silent -> has_mark (repr_bonferroni b v) = negb (b_verdict b).
+Proof.
+  intros W NS. unfold repr_bonferroni.
+  assert (E : verb_eqb v Silent = false) by (destruct v; try reflexivity; congruence).
+  rewrite E. cbn [andb]. destruct (verb_eqb v Summary); [apply summary_mark|].
+  now rewrite one_table_mark, corr_table_mark.
+Qed.
+
+Theorem mark_iff_false_holm b v :
+  bres_wf b -> has_mark (repr_holm b v) = negb (b_verdict b).
+Proof.
+  intros W. destruct v; cbn [repr_holm]; try apply summary_mark;
+    try now rewrite one_table_mark, corr_table_mark.
+  destruct (b_verdict b); reflexivity.
+Qed.
+
+(* ---------- metadata ---------- *)
+
+Lemma meta_table_mark keys samples :
+  table_mark (meta_table keys samples)
+  = existsb (existsb (fun p : cell * bool => negb (snd p))) samples.
+Proof.
+  unfold table_mark, meta_table; cbn. rewrite falses_no_mark. cbn.
+  rewrite existsb_map. apply existsb_ext. intros s. now rewrite existsb_map.
+Qed.
+
+Lemma m_ok_spec m : mres_wf m ->
+  length (m_ok m) = length (m_keys m) /\
+  forall i, i < length (m_keys m) ->
+    nth i (m_ok m) true = forallb (fun s => snd (nth i s (CK 0, true))) (m_samples m).
+Proof.
+  intros (S & _). unfold m_ok. set (n := length (m_keys m)) in *.
+  assert (F : Forall (fun l => length l = n) (map (map snd) (m_samples m))).
+  { apply Forall_map. eapply Forall_impl; [|exact S]. intros s H; now rewrite map_length. }
+  destruct (fold_andl_spec n _ _ (repeat_length true n) F) as [L N].
+  split; [exact L|]. intros i Hi. rewrite N by exact Hi. rewrite nth_repeat_true. cbn.
+  rewrite forallb_map'. apply forallb_ext'. intros s.
+  change true with (snd (CK 0, true)) at 1. now rewrite map_nth.
+Qed.
+
+Lemma meta_bad_some m :
+  mres_wf m -> existsb (fun b => b) (m_bad m) = true ->
+  m_verdict m = false /\
+  table_mark (meta_table (pick (m_bad m) (m_keys m)) (map (pick (m_bad m)) (m_samples m))) = true.
+Proof.
+  intros W B. pose proof W as (S & V). destruct (m_ok_spec m W) as [L N].
+  unfold m_bad in B. rewrite existsb_map in B.
+  rewrite (existsb_negb_forallb (fun b : bool => b)) in B. rewrite negb_true_iff in B.
+  destruct (existsb_nth_false _ B) as (i & Hi & Hn). rewrite L in Hi.
+  rewrite N in Hn by exact Hi.
+  rewrite <- negb_true_iff, <- existsb_negb_forallb in Hn.
+  apply existsb_exists in Hn. destruct Hn as (s & Hs & Hf). rewrite negb_true_iff in Hf.
+  rewrite Forall_forall in S. pose proof (S s Hs) as Ls.
+  split.
+  - rewrite V. apply not_true_is_false. intros T. rewrite forallb_forall in T.
+    specialize (T s Hs). rewrite forallb_forall in T.
+    specialize (T (nth i s (CK 0, true))). rewrite Hf in T.
+    assert (H : In (nth i s (CK 0, true)) s) by (apply nth_In; lia). specialize (T H). discriminate.
+  - rewrite meta_table_mark, existsb_map. apply existsb_exists. exists s. split; [exact Hs|].
+    apply (pick_hit (fun p : cell * bool => negb (snd p)) (CK 0, true) (m_bad m) s i).
+    + unfold m_bad. rewrite map_length. lia.
+    + lia.
+    + unfold m_bad. rewrite (nth_indep _ false (negb true)) by (rewrite map_length; lia).
+      rewrite map_nth. rewrite N by exact Hi.
+      assert (X : forallb (fun s0 => snd (nth i s0 (CK 0, true))) (m_samples m) = false).
+      { apply not_true_is_false. intros T. rewrite forallb_forall in T. specialize (T s Hs). congruence. }
+      now rewrite X.
+    + now rewrite Hf.
+Qed.
+
+Theorem mark_iff_false_metadata m v :
+  mres_wf m -> v <> Silent -> has_mark (repr_metadata m v) = negb (m_verdict m).
+Proof.
+  intros W NS.
+  assert (F : table_mark (meta_table (m_keys m) (m_samples m)) = negb (m_verdict m)).
+  { destruct W as (_ & V). rewrite meta_table_mark, V. rewrite <- existsb_negb_forallb.
+    apply existsb_ext. intros s. now rewrite <- existsb_negb_forallb. }
+  destruct v; cbn [repr_metadata]; try congruence; try apply summary_mark;
+    try (rewrite one_table_mark; exact F).
+  - unfold repr_metadata_default. destruct (m_verdict m); reflexivity.
+  - unfold repr_metadata_intermediate.
+    destruct (existsb (fun b => b) (m_bad m)) eqn:B; cbn [negb]; [|apply summary_mark].
+    destruct (meta_bad_some m W B) as [V T]. now rewrite one_table_mark, T, V.
+Qed.
+
+(* ---------- statistics of tasks / tests ---------- *)
+
+Lemma bad_rows_flag (l : list (nat * nat)) :
+  existsb (fun r : nat * nat * bool => snd r) (map (fun p => (p, true)) (filter nonzero l))
+  = existsb nonzero l.
+Proof. induction l as [|a r IH]; cbn [filter map existsb]; [reflexivity|]. destruct (nonzero a); cbn [map existsb snd orb]; [reflexivity | exact IH]. Qed.
+
+Lemma stats_table_mark s :
+  sres_wf s -> table_mark (stats_table s) = negb (s_verdict s).
+Proof.
+  intros W. unfold table_mark, stats_table. cbn [mask existsb].
+  rewrite orb_false_r, orb_diag.
+  set (rows := (if nonzero (s_ok s) then [(s_ok s, false)] else []) ++ _).
+  rewrite existsb_app. cbn [existsb]. rewrite orb_false_r.
+  rewrite existsb_map.
+  assert (E : existsb (fun r : nat * nat * bool => snd r) rows = existsb nonzero (s_others s)).
+  { unfold rows. rewrite existsb_app, bad_rows_flag. destruct (nonzero (s_ok s)); reflexivity. }
+  change (existsb snd rows) with (existsb (fun r : nat * nat * bool => snd r) rows).
+  rewrite E. unfold sres_wf in W.
+  destruct (existsb nonzero (s_others s)); cbn.
+  - now rewrite W.
+  - now rewrite andb_true_r.
+Qed.
+
+Theorem mark_iff_false_stats s v :
+  sres_wf s -> v <> Silent -> has_mark (repr_stats s v) = negb (s_verdict s).
+Proof.
+  intros W NS. unfold repr_stats.
+  assert (E : verb_eqb v Silent = false) by (destruct v; try reflexivity; congruence).
+  rewrite E. cbn [andb has_mark existsb tmark]. rewrite !orb_false_r. now apply stats_table_mark.
+Qed.
+
+(* ---------- statistics of tests by labels ---------- *)
+
+Lemma labels_table_mark n rows :
+  table_mark (labels_table n rows) = negb (forallb l_orac rows).
+Proof.
+  unfold table_mark, labels_table; cbn [mask]. rewrite Nat.add_comm. cbn [Nat.add].
+  rewrite existsb_repeat_S, existsb_map. apply existsb_negb_forallb.
+Qed.
+
+Lemma missing_no_mark l : has_mark (missing_text l) = false.
+Proof. unfold missing_text. destruct (l_missing l); reflexivity. Qed.
+
+Lemma filter_negb_nil {X} (f : X -> bool) l :
+  filter (fun x => negb (f x)) l = [] -> forallb f l = true.
+Proof.
+  induction l as [|a r IH]; cbn; [reflexivity|]. destruct (f a); cbn; [exact IH|discriminate].
+Qed.
+
+Lemma filter_negb_cons {X} (f : X -> bool) l a r :
+  filter (fun x => negb (f x)) l = a :: r ->
+  forallb f l = false /\ forallb f (a :: r) = false.
+Proof.
+  intros H. assert (Ha : In a (filter (fun x => negb (f x)) l)) by (rewrite H; left; reflexivity).
+  apply filter_In in Ha. destruct Ha as [Hin Hf]. rewrite negb_true_iff in Hf. split.
+  - apply not_true_is_false. intros T. rewrite forallb_forall in T. specialize (T a Hin). congruence.
+  - cbn. now rewrite Hf.
+Qed.
+
+Theorem mark_iff_false_bylabels l v :
+  lres_wf l -> v <> Silent -> has_mark (repr_bylabels l v) = negb (l_verdict l).
+Proof.
+  intros W NS. unfold lres_wf in W. unfold repr_bylabels.
+  assert (E : verb_eqb v Silent = false) by (destruct v; try reflexivity; congruence).
+  rewrite E. cbn [andb]. destruct (verb_eqb v Summary).
+  - unfold has_mark. rewrite existsb_app. fold (has_mark (missing_text l)).
+    rewrite missing_no_mark, orb_false_r.
+    destruct (filter (fun r => negb (l_orac r)) (l_rows l)) as [|a r] eqn:F.
+    + apply filter_negb_nil in F. rewrite W, F. reflexivity.
+    + apply filter_negb_cons in F. destruct F as [F1 F2]. rewrite W, F1.
+      cbn [existsb tmark]. rewrite labels_table_mark, F2. reflexivity.
+  - cbn [has_mark existsb tmark]. fold (has_mark (missing_text l)).
+    rewrite missing_no_mark, orb_false_r, labels_table_mark. now rewrite W.
+Qed.
+
+(* ---------- all kinds, Table representer ---------- *)
+
+Theorem mark_iff_false r v :
+  result_wf r -> v <> Silent -> has_mark (render_table r v) = negb (verdict r).
+Proof.
+  intros W NS. destruct r; cbn [render_table verdict result_wf] in *.
+  - now apply mark_iff_false_equal.
+  - now apply mark_iff_false_approx.
+  - now apply mark_iff_false_student.
+  - now apply mark_iff_false_bonferroni.
+  - now apply mark_iff_false_holm.
+  - now apply mark_iff_false_metadata.
+  - now apply mark_iff_false_stats.
+  - now apply mark_iff_false_stats.
+  - now apply mark_iff_false_bylabels.
+  - reflexivity.
+Qed.
+
+(* ---------- FullTable / Full representers ---------- *)
+
+(* every kind but the two corrections is rendered as by the Table representer *)
+Theorem render_full_other rep r v :
+  (forall b, r <> RBonf b) -> (forall b, r <> RHolm b) -> render rep r v = render_table r v.
+Proof.
+  intros H1 H2. destruct rep; [reflexivity| |];
+    destruct r; try reflexivity; try (exfalso; eapply H1; reflexivity);
+    exfalso; eapply H2; reflexivity.
+Qed.
+
+Definition correction (r : result) : option bres :=
+  match r with RBonf b | RHolm b => Some b | _ => None end.
+
+(* a correction is rendered as itself followed by its first test, one level
+   less verbose when the correction passes: the marks are those of the two *)
+Theorem mark_full_correction rep r b v :
+  rep <> RepTable -> correction r = Some b -> result_wf r -> v <> Silent ->
+  has_mark (render rep r v)
+  = negb (b_verdict b)
+    || has_mark (render_table (RStudent (b_first b)) (first_verb (b_verdict b) v)).
+Proof.
+  intros NR C W NS.
+  assert (E : verb_eqb v Silent = false) by (destruct v; try reflexivity; congruence).
+  destruct r; cbn in C; try discriminate; inversion C; subst b0;
+    (destruct rep; [congruence| |]); cbn [render]; rewrite E;
+    unfold has_mark; rewrite existsb_app; fold (has_mark (render_table (RBonf b) v));
+    fold (has_mark (render_table (RHolm b) v)); f_equal.
+  all: try (apply (mark_iff_false (RBonf b)); assumption).
+  all: try (apply (mark_iff_false (RHolm b)); assumption).
+Qed.
+
+(* hence: a false correction is always marked; a true one is marked exactly when
+   its first test, rendered one level lower, is marked *)
+Corollary mark_full_correction_false rep r b v :
+  rep <> RepTable -> correction r = Some b -> result_wf r -> v <> Silent ->
+  b_verdict b = false -> has_mark (render rep r v) = true.
+Proof. intros. erewrite mark_full_correction by eassumption. now rewrite H3. Qed.
